@@ -32,6 +32,11 @@ ASSUMPTIONS = [
     "rest and ids of notes created by splitting at barlines are not compared",
     "alter None == 0, key mode None == 'major'; order of simultaneous pedal events is not compared",
     "sound_off (pedal semantics, C14), channel and track are not part of the statement and are not compared",
+    "signature lines of the written file are required to carry the position (beat 1, offset 0, time in beats) of the "
+    "bar start where the signature is written and the measure number used by the note lines of that bar",
+    "generator preconditions: >= 1 match per alignment; a time signature at the start; signature changes at barlines of "
+    "bars that hold a note; pickups begin with a note; voices and staves given; ids without '-1'; performed notes of "
+    "equal pitch do not overlap; no textually identical pedal events",
 ]
 CHUNK = 20
 
@@ -42,9 +47,11 @@ def _tmpdir():
     global _TMP
     if _TMP is None or not os.path.isdir(_TMP):
         _TMP = tempfile.mkdtemp(prefix="c08-")
-        import atexit
+        # pool workers leave through os._exit (no atexit): multiprocessing's finalizers run in workers and in the
+        # main process alike
+        from multiprocessing.util import Finalize
 
-        atexit.register(shutil.rmtree, _TMP, True)
+        Finalize(None, shutil.rmtree, args=(_TMP, True), exitpriority=10)
     return _TMP
 
 
@@ -180,17 +187,33 @@ def eval_case(case):
         res.fail("file-pedal-lines", expected=[sum(1 for c in ctrl if c[0] == 64), sum(1 for c in ctrl if c[0] == 67)],
                  observed=[n_sus, n_soft], where="exportmatch.matchfile_from_alignment")
     res.nontrivial = len(lines) > 0
+    # signature lines: one per signature object, positioned (measure:beat, offset, time in beats) at the start of the
+    # bar where the signature is written; the measure number is the one the note lines of that bar use
+    props, snote_measure = M.scoreprop_lines(text)
+    bt_ = M.bar_table(sc)
+    for attr, key in (("timeSignature", "ts"), ("keySignature", "ks")):
+        exp_pos = []
+        for bi, (b, raw) in enumerate(zip(bt_, sc["bars"])):
+            if raw.get(key) is None:
+                continue
+            ms = {snote_measure[n["id"]] for n in sc["notes"] if b["start"] <= n["s"] < b["end"] and n["id"] in snote_measure}
+            exp_pos.append((sorted(ms)[0] if len(ms) == 1 else None, M.beat_of(sc, b["start"])))
+        got_pos = [(p[2], p[3], p[4], p[5]) for p in props if p[0] == attr]
+        okp = len(got_pos) == len(exp_pos)
+        if okp:
+            for (em, eb), (gm, gb, go, gt) in zip(exp_pos, sorted(got_pos, key=lambda x: x[3])):
+                if (em is not None and gm != em) or gb != 1 or go not in ("0", "0/1") or abs(gt - float(eb)) > 1.01e-4:
+                    okp = False
+        if not okp:
+            res.fail("file-signature-lines", expected=[(a, 1, "0", float(b)) for a, b in exp_pos], observed=sorted(got_pos, key=lambda x: x[3]),
+                     where="exportmatch.matchfile_from_alignment",
+                     detail="%s lines as (measure, beat, offset, time in beats); measure None = bar without a note line" % attr)
 
     # -- alignment --------------------------------------------------------------------------------
     def norm_type(t):
         if t is None:
             return None
         return tuple(t) if isinstance(t, (list, tuple)) else (t,)
-
-    def al_key(d, suffix):
-        sid = d.get("score_id")
-        return (d.get("label"), None if sid is None else str(sid) + suffix, d.get("performance_id"),
-                norm_type(d.get("type")))
 
     got_al = Counter((d.get("label"), d.get("score_id"), d.get("performance_id"), norm_type(d.get("type")))
                      for d in al)
@@ -637,7 +660,7 @@ def gen_rhythm(full, kmax=3):
         L = blen(m)
         u = UNIT[m]
         P = patterns(m, kmax)
-        if kmax > 3 and not full:
+        if kmax > 3:
             P3 = patterns(m, 3)
             P = [A for A in P if A not in P3]  # only the patterns new at this kmax
         for A in P:
@@ -645,10 +668,26 @@ def gen_rhythm(full, kmax=3):
             yield mk_case(mk_score([(m, m, None), (m, None, None), (m, None, None)], [(0, L)] + shift(A, L) + [(2 * L, 3 * L)]))
             yield mk_case(mk_score([(m, m, None, u), (m, None, None), (m, None, None)],
                                    [(0, u)] + shift(A, u) + [(u + L, u + 2 * L)]))
-        if full and len(P) <= 90:
+
+
+def gen_rhythm_pairs():
+    for m in METERS:
+        L = blen(m)
+        P = patterns(m)
+        if len(P) <= 90:
             for A in P:
                 for B in P:
                     yield mk_case(mk_score([(m, m, None), (m, None, None)], A + shift(B, L)))
+
+
+def gen_rhythm_triples():
+    for m in METERS:
+        L = blen(m)
+        P = patterns(m, 2)
+        for A in P:
+            for B in P:
+                for C in P:
+                    yield mk_case(mk_score([(m, m, None), (m, None, None), (m, None, None)], A + shift(B, L) + shift(C, 2 * L)))
 
 
 def note(id, s, e, step="C", alter=None, oct=4, voice=1, staff=1, **kw):
@@ -673,21 +712,31 @@ def gen_ties(full, more=False):
         L = blen(m)
         u = UNIT[m] if (full or m != (6, 8)) else 3
         grid = list(range(0, 3 * L + 1, u))
-        for fill in ("fill", "gap"):
+        for fill in ("fill", "gap", "pickup-gap"):
+            pk = u if fill == "pickup-gap" else 0
             for s in grid:
                 for e in grid:
                     if e <= s:
                         continue
                     for split in (True, False):
                         segs = split_at(s, e, [L, 2 * L]) if split else [(s, e)]
-                        if not split and len(split_at(s, e, [L, 2 * L])) == 1:
+                        if not split and (len(split_at(s, e, [L, 2 * L])) == 1 or pk):
                             continue  # same as the split variant
                         base = [(0, L), (2 * L, 3 * L)] + ([(L, 2 * L)] if fill == "fill" else [])
-                        sc = mk_score([(m, m, None), (m, None, None), (m, None, None)], base)
+                        bars = [(m, m, None), (m, None, None), (m, None, None)]
+                        if pk:
+                            # one-unit anacrusis, then the three bars; bar 1 is the one without a head in voice 1
+                            base = [(0, pk), (pk + L, pk + 2 * L), (pk + 2 * L, pk + 3 * L)]
+                            bars = [(m, m, None, pk), (m, None, None), (m, None, None), (m, None, None)]
+                        sc = mk_score(bars, base)
                         ch = []
                         for k, (a, b) in enumerate(segs):
-                            ch.append(note("L%d" % k, a, b, "A", None, 2, 2, 2,
+                            ch.append(note("L%d" % k, a + (pk + L if pk else 0), b + (pk + L if pk else 0), "A", None, 2, 2, 2,
                                            tie=("L%d" % (k + 1)) if k + 1 < len(segs) else None))
+                        if pk:
+                            ch = [c for c in ch if c["e"] <= pk + 3 * L]
+                            if not ch or ch[-1].get("tie"):
+                                continue
                         sc["notes"] += ch
                         yield mk_case(sc)
 
@@ -933,22 +982,23 @@ def gen_chords(full):
                     yield c
 
 
-def gen_labels(full):
+def gen_labels(full, ks=None, max_extra=2):
     """all assignments of {match, deletion} to k<=4 score notes (>=1 match) x 0-2 extra performed notes, each an
     insertion or an ornament of any score note, placed before, between or after the matched notes; alignment list in
     given and reversed order; performed ids with and without the 'n' prefix"""
     m = (4, 4)
-    for k in ((2, 3, 4) if full else (3, 4)):
-        spans = {2: [(0, 4), (4, 8)], 3: [(0, 2), (2, 4), (4, 8)], 4: [(0, 2), (2, 4), (2, 4), (4, 8)]}[k]
+    for k in (ks or ((2, 3, 4) if full else (3, 4))):
+        spans = {2: [(0, 4), (4, 8)], 3: [(0, 2), (2, 4), (4, 8)], 4: [(0, 2), (2, 4), (2, 4), (4, 8)],
+                 5: [(0, 2), (2, 4), (2, 4), (4, 6), (6, 8)]}[k]
         sc = mk_score([(m, m, None)], spans)
-        if k == 4:
+        if k >= 4:
             sc["notes"][2]["voice"] = 2
         ids = [n["id"] for n in sc["notes"]]
         base = auto_perf(sc)
         for labs in itertools.product(("match", "deletion"), repeat=k):
             if "match" not in labs:
                 continue
-            for nx in (0, 1, 2):
+            for nx in range(max_extra + 1):
                 kinds = [("insertion", None)] + [("ornament", i) for i in ids]
                 for ex in itertools.product(kinds, repeat=nx):
                     for variant in range(2 if nx else 1):
@@ -980,7 +1030,7 @@ def gen_labels(full):
 CLOCKS = [(480, 500000), (960, 500000), (384, 600000), (1000, 1000000), (4000, 500000), (24, 250000), (480, 333333)]
 
 
-def gen_clock(full):
+def gen_clock(full, all_streams=False):
     """clock pairs x note times (on the tick grid incl. 0 and 10^6, off the grid as exact seconds incl. exact half
     ticks and thirds) x every pedal stream of length 0-3 over {64, 67, 66} x tick {0, 7} x value {0, 127} without
     exact repetitions"""
@@ -1002,11 +1052,16 @@ def gen_clock(full):
         for ti, ts in enumerate(timesets):
             perf = [["n%d" % i, 60 + i, on, off, 1 + 63 * i] for i, (on, off) in enumerate(ts)]
             align = [["match", "s0", "n0", None], ["match", "s1", "n1", None], ["insertion", None, "n2", None]]
-            sub = streams if (ti == 0 and (full or (ppq, mpq) in CLOCKS[:3])) else streams[:1 + len(events) + 20]
+            if all_streams:
+                if ti == 0:
+                    continue  # already in the space "clock"
+                sub = streams
+            else:
+                sub = streams if (ti == 0 and (full or (ppq, mpq) in CLOCKS[:3])) else streams[:1 + len(events) + 20]
             for st in sub:
                 yield mk_case(sc, align=align, perf=perf, ctrl=st, ppq=ppq, mpq=mpq)
     # exporter defaults (no ppq/mpq given)
-    for st in streams[:10]:
+    for st in ([] if all_streams else streams[:10]):
         perf = [["n%d" % i, 60 + i, on, off, 1 + 63 * i] for i, (on, off) in enumerate([(0, 10), (12, 100000), (5, 6)])]
         align = [["match", "s0", "n0", None], ["match", "s1", "n1", None], ["insertion", None, "n2", None]]
         yield mk_case(sc, align=align, perf=perf, ctrl=st, defaults=True)
@@ -1171,10 +1226,15 @@ def spaces(tier, seed):
     b_rh = ("8 meters (4/4 3/4 2/4 6/8 3/8 2/2 5/8 9/8); every labelled composition (<=%d parts, note/rest) of one bar on the "
             "meter's unit grid in 3 layouts (first bar, middle bar, after a one-unit pickup)")
     if thorough:
-        sp.append(Space("rhythm", lambda: itertools.chain(gen_rhythm(True), (c for c in gen_rhythm(False, 4))), True,
-                        b_rh % 4 + "; all ordered pairs of <=3-part bars for meters with <= 90 patterns; all notes matched"))
+        sp.append(Space("rhythm", lambda: gen_rhythm(False), True, b_rh % 3 + "; all notes matched"))
+        sp.append(Space("rhythm-4parts", lambda: gen_rhythm(False, 4), True,
+                        "the same layouts for the compositions into exactly 4 parts"))
+        sp.append(Space("rhythm-pairs", lambda: gen_rhythm_pairs(), True,
+                        "all ordered pairs [A|B] of <=3-part bars (8 meters, 14-86 patterns each)"))
+        sp.append(Space("rhythm-triples", lambda: gen_rhythm_triples(), True,
+                        "all ordered triples [A|B|C] of <=2-part bars, 8 meters"))
     else:
-        sp.append(Space("rhythm", with_block(lambda: gen_rhythm(True), lambda: gen_rhythm(False), 4, seed), True,
+        sp.append(Space("rhythm", with_block(lambda: gen_rhythm_pairs(), lambda: gen_rhythm(False), 4, seed), True,
                         b_rh % 3 + ", complete; + block seed%4 of all ordered pairs of such bars (meters with <= 90 patterns)"))
     sp.append(Space("ties", lambda: gen_ties(True, thorough), True,
                     "5 meters%s, 3 bars, every (start,end) of a long note on the unit grid, written split at the barlines or "
@@ -1204,6 +1264,11 @@ def spaces(tier, seed):
                     "7 (ppq,mpq) pairs x 3 time sets (grid, exact seconds off the grid, exact half ticks) x every pedal stream "
                     "of length 0-3 over 10 events (numbers 64/67/66, on and off the tick grid) for the grid set, the first 31 "
                     "streams otherwise; exporter defaults"))
+    if thorough:
+        sp.append(Space("clock-all", lambda: gen_clock(True, all_streams=True), True,
+                        "as clock, but every pedal stream (length 0-3 over 10 events) for all 3 time sets and all 7 clocks"))
+        sp.append(Space("labels-5", lambda: gen_labels(True, ks=(5,), max_extra=1), True,
+                        "5 score notes: all {match,deletion}^5 with >=1 match x 0-1 extra performed note"))
     sp.append(Space("options", lambda: gen_options(thorough), True,
                     "3 call forms x assume_unfolded x 2 scores x 3 alignment variants"))
     b_dup = ("hand-written files (independent writer): every subset of <=4 of 11 note lines with shared ids, both orders, "
@@ -1221,7 +1286,20 @@ def spaces(tier, seed):
     return sp
 
 
-TRIGGERS = {}
+def _bar_without_note_line(case, violation=None):
+    """some bar of the score holds no head of a written (matched or deleted) score note"""
+    if not isinstance(case, dict) or "score" not in case:
+        return False
+    sc = case["score"]
+    written = {a[1] for a in case["align"] if a[0] in ("match", "deletion")}
+    heads = [h for h, _, _ in M.chains(sc) if h["id"] in written]
+    for b in M.bar_table(sc):
+        if not any(b["start"] <= h["s"] < b["end"] for h in heads):
+            return True
+    return False
+
+
+TRIGGERS = {"bar_without_note_line": _bar_without_note_line}
 
 if __name__ == "__main__":
     import checks.c08 as _m
